@@ -176,7 +176,9 @@ pub fn catch<T>(f: impl FnOnce() -> T) -> Option<T> {
 }
 
 pub fn silence_panics() {
-    std::panic::set_hook(Box::new(|_| {}));
+    if std::env::var("VH_SHOW_PANICS").is_err() {
+        std::panic::set_hook(Box::new(|_| {}));
+    }
 }
 
 /// `key=value` fields of a case line (after the engine name).
